@@ -27,6 +27,7 @@ func main() {
 	dump := flag.String("dump", "", "debug: dump internal tables (slots) or every obligation of -prop (obligations)")
 	selftest := flag.String("selftest", "", "analyse the fixture module in this directory and verify the engines' must-flag / must-pass expectations")
 	specDir := flag.String("spec", "", "directory of the reference tables (default: <dir of executable>/../spec)")
+	seededDir := flag.String("seeded", "", "directory of the seeded variants replayed by the thorough tier (default: <dir of executable>/../seeded)")
 	flag.Parse()
 	if *explain != "" {
 		b, err := os.ReadFile(*explain)
@@ -87,6 +88,7 @@ func main() {
 		os.Exit(2)
 	}
 	var rep *lint.Report
+	var lastCtx *lint.Ctx
 	for _, arch := range archs {
 		ctx, err := lint.Load(abs, arch, lint.ModulePath, 11)
 		if err != nil {
@@ -95,6 +97,7 @@ func main() {
 			fmt.Println("CANNOT-DECIDE:", err)
 			os.Exit(2)
 		}
+		lastCtx = ctx
 		r := lint.NewReport(*prop, run.Level)
 		run.Fn(ctx, r)
 		if rep == nil {
@@ -107,6 +110,16 @@ func main() {
 		for _, o := range rep.Obls {
 			fmt.Printf("%-10s %s | %s | %s | %s\n", o.Verdict, o.Rule, o.Key, o.Pos, o.Detail)
 		}
+	}
+	var problems []string
+	if *tier == "thorough" {
+		sd := *seededDir
+		if sd == "" {
+			if exe, err := os.Executable(); err == nil {
+				sd = filepath.Join(filepath.Dir(filepath.Dir(exe)), "seeded")
+			}
+		}
+		problems = thoroughExtras(*prop, abs, sd, *known, lastCtx, rep)
 	}
 	evDir := *out
 	if *noEvidence {
@@ -128,6 +141,14 @@ func main() {
 	}
 	for _, p := range oc.ReplayPaths {
 		fmt.Printf("VIOLATION property=%s replay=%s\n", *prop, p)
+	}
+	for _, p := range problems {
+		fmt.Println(p)
+	}
+	if oc.Exit == 0 && len(problems) > 0 {
+		// the analysis found no violation, but the checker itself lost sensitivity or missed a site:
+		// that is a defect of the machinery, reported as "cannot decide" rather than as a violation.
+		os.Exit(2)
 	}
 	os.Exit(oc.Exit)
 }
